@@ -132,13 +132,15 @@ pub fn parallel_parse(
                     .with_context(|| format!("Parsing failed: {:?}", dir_entry.path()))
             });
             match result {
-                Ok(Some(parsed_data)) => {
-                    tx.send(Ok(parsed_data)).unwrap();
-                    WalkState::Continue
-                }
+                // The collector stops listening after the first error it receives; a send that
+                // fails only means another file already failed, so stop walking.
+                Ok(Some(parsed_data)) => match tx.send(Ok(parsed_data)) {
+                    Ok(()) => WalkState::Continue,
+                    Err(_) => WalkState::Quit,
+                },
                 Ok(None) => WalkState::Continue,
                 Err(err) => {
-                    tx.send(Err(err)).unwrap();
+                    let _ = tx.send(Err(err));
                     WalkState::Quit
                 }
             }
